@@ -184,8 +184,8 @@ def rows_appended(ck: Checker, fn: Func, g, at, rows_expr: ast.expr) -> List[ast
     for x in walk_own(fn.node):
         if isinstance(x, ast.Call) and is_method_call(x, "append") and x.args and isinstance(x.args[0], ast.Tuple):
             base = x.func.value
-            while isinstance(base, ast.Subscript):
-                base = base.value
+            while isinstance(base, ast.Subscript) or (isinstance(base, ast.Call) and is_method_call(base, "setdefault", "get")):
+                base = base.value if isinstance(base, ast.Subscript) else base.func.value
             if isinstance(base, ast.Name) and base.id in names:
                 out.append(x.args[0])
     return out
